@@ -305,6 +305,13 @@ end KinModel.Router
 
 namespace KinModel.Router
 
+theorem gRouteMatch_path {r : GRoute} {req : Req} {b : List (Str × Str)} (h : gRouteMatch r req = some b) :
+    ∃ pb, gmatch '/' r.pathToks req.path = some pb := by
+  unfold gRouteMatch at h
+  split at h
+  · simp at h
+  · rename_i pb hpb; exact ⟨pb, hpb⟩
+
 def ORel (o1 o2 : Option GRoute) : Prop :=
   ∀ r1 r2, o1 = some r1 → o2 = some r2 → nvars r1.template ≤ nvars r2.template
 
